@@ -53,7 +53,7 @@ fn corpus() -> BoxedStrategy<Vec<Vec<String>>> {
         let word = prop_oneof![16 => proptest::collection::vec(select(letters), 1..=7), 1 => proptest::collection::vec(select(letters), 8..=20)].prop_map(|v| v.concat());
         let line = prop_oneof![
             12 => (proptest::collection::vec(word, 1..=5), any::<bool>()).prop_map(|(w, dbl)| w.join(if dbl { "  " } else { " " })),
-            1 => proptest::sample::select(vec!["", " ", "\t ", " a ", "\u{3000}b\u{a0}"]).prop_map(str::to_string),
+            1 => proptest::sample::select(vec!["", " ", "\t ", " a ", "\u{3000}b\u{a0}", BAD_LINE]).prop_map(str::to_string),
         ];
         // line counts at and around 256 / 512 (one or two files)
         let many = (select(vec![255usize, 256, 257, 511, 512, 513]), any::<bool>()).prop_flat_map({
@@ -88,6 +88,9 @@ fn corpus() -> BoxedStrategy<Vec<Vec<String>>> {
 }
 
 type Word = (Vec<Vec<u8>>, usize);
+
+/// a corpus line equal to this marker is written as bytes that are not valid UTF-8
+const BAD_LINE: &str = "\u{fffe}";
 
 fn pair_freqs(words: &[Word]) -> HashMap<(Vec<u8>, Vec<u8>), usize> {
     let mut f: HashMap<(Vec<u8>, Vec<u8>), usize> = HashMap::new();
@@ -169,7 +172,7 @@ impl Prop for C19 {
     type Case = Case;
     const ID: &'static str = "C19";
     const RULE: &'static str = "corpora of 1-2 files x 0-4 lines (occasionally up to 20 per file, and line totals of 255-257 / 511-513) x 1-5 words of length 1-7 over 1-3 letter alphabets (multi-byte and NFKC-expanding letters, the same letter precomposed and decomposed, Hangul jamo, double spaces), occasionally 1-3 natural sentences; x vocab_size in {256,320,384} x num_special_tokens 0..=70 (0-128 requested merges, usually more than the corpus supplies) x normalisation {None, NFKC, NFC, NFD, NFKD} x num_threads 0..=4 x max_lines_per_file. Oracle: table ids are exactly 0..n-1, n <= requested; replay with a full recount of all adjacent pair frequencies after every merge: entry i must be the concatenation of an adjacent pair whose frequency is positive and maximal (ties explored), training may stop early only when no pair is left; the table is well-formed and a BPETokenizer built from it round-trips the corpus lines and agrees with the table on ids. Non-trivial: a word with an overlapping or repeated pair, and (corpus exhausted before the request or >= 3 merges with a merged operand). Distinct = distinct serialised case.";
-    const ESSENTIAL: &'static [&'static str] = &["exhausted", "overlap_or_repeat", "depth>=2", "tie", "threads>1", "zero_merges_requested", "full_request", "normalised", "255_or_more_lines"];
+    const ESSENTIAL: &'static [&'static str] = &["exhausted", "overlap_or_repeat", "depth>=2", "tie", "threads>1", "zero_merges_requested", "full_request", "normalised", "255_or_more_lines", "undecodable_line"];
 
     fn budget(tier: Tier) -> Budget {
         match tier {
@@ -214,10 +217,15 @@ impl Prop for C19 {
         let mut paths = vec![];
         for (i, lines) in c.files.iter().enumerate() {
             let p = dir.join(format!("c19-{i}.txt"));
-            let mut s = String::new();
+            let mut s: Vec<u8> = vec![];
             for l in lines {
-                s.push_str(l);
-                s.push('\n');
+                if l == BAD_LINE {
+                    // a line that is not valid UTF-8
+                    s.extend_from_slice(&[0xff, 0xfe, b'z']);
+                } else {
+                    s.extend_from_slice(l.as_bytes());
+                }
+                s.push(b'\n');
             }
             std::fs::write(&p, s).expect("write corpus");
             paths.push(p);
@@ -264,12 +272,28 @@ impl Prop for C19 {
         let entries: Vec<Vec<u8>> = entries.into_iter().map(|e| e.unwrap()).collect();
         out.label_if(n == requested && n > 0, "full_request");
         out.label_if(n < requested, "exhausted");
-        // corpus as word -> count
+        // corpus as word -> count. A line that is not valid UTF-8 has two defensible readings: it is
+        // skipped (what the reader does today) or decoded lossily; a table is accepted if it is
+        // greedy-correct under one of them
+        let has_bad_line = c.files.iter().flatten().any(|l| l == BAD_LINE);
+        out.label_if(has_bad_line, "undecodable_line");
+        let mut mixed_line = false;
+        let mut build = |lossy: bool| -> (Vec<Word>, bool, Vec<String>) {
         let mut counts: HashMap<String, usize> = HashMap::new();
         let mut overlap = false;
         let mut lines_used: Vec<String> = vec![];
         for lines in &c.files {
             for l in lines.iter().take(c.max_lines.unwrap_or(usize::MAX)) {
+                let lossy_line;
+                let l = if l == BAD_LINE {
+                    if !lossy {
+                        continue;
+                    }
+                    lossy_line = "\u{fffd}\u{fffd}z".to_string();
+                    &lossy_line
+                } else {
+                    l
+                };
                 // the corpus as train_bpe is documented to see it: cleaned, then normalised. On
                 // lines without a mixed cluster this is computed independently of the crate's
                 // helpers (split/join, per-cluster normalisation with unicode-normalization)
@@ -286,7 +310,7 @@ impl Prop for C19 {
                         None => cl,
                     }
                 } else {
-                    out.label("line_with_mixed_cluster");
+                    mixed_line = true;
                     let mut l = clean(l, true);
                     if let Some(n) = norm {
                         l = normalize(&l, n, true);
@@ -310,18 +334,31 @@ impl Prop for C19 {
                 lines_used.push(l);
             }
         }
-        out.label_if(overlap, "overlap_or_repeat");
         let mut words: Vec<Word> = counts
             .iter()
             .map(|(w, c)| (w.as_bytes().iter().map(|b| vec![*b]).collect(), *c))
             .collect();
         words.sort();
+        (words, overlap, lines_used)
+        };
+        let (words, overlap, lines_used) = build(false);
+        out.label_if(overlap, "overlap_or_repeat");
         let mut budget = 4000usize;
         let mut info = ReplayInfo::default();
         if let Err(e) = replay(&words, &entries, 0, requested, &mut budget, &mut info) {
-            out.fail(format!("{e}; table {:?}", entries.iter().map(|e| String::from_utf8_lossy(e).to_string()).collect::<Vec<_>>()));
-            return out;
+            let mut ok_lossy = false;
+            if has_bad_line {
+                let (words2, _, _) = build(true);
+                let mut budget2 = 4000usize;
+                let mut info2 = ReplayInfo::default();
+                ok_lossy = replay(&words2, &entries, 0, requested, &mut budget2, &mut info2).is_ok();
+            }
+            if !ok_lossy {
+                out.fail(format!("{e}{}; table {:?}", if has_bad_line { " (neither with the undecodable line skipped nor with it decoded lossily)" } else { "" }, entries.iter().map(|e| String::from_utf8_lossy(e).to_string()).collect::<Vec<_>>()));
+                return out;
+            }
         }
+        out.label_if(mixed_line, "line_with_mixed_cluster");
         out.label_if(info.ties > 0, "tie");
         out.label_if(budget == 0, "replay_budget_exhausted");
         // well-formed + tokenizer consistency
